@@ -101,6 +101,8 @@ pub enum Anomaly {
     Garbage { id: u64, op: &'static str },
     /// more zero-sized values dropped than created
     ZUnderflow,
+    /// a value was READ (compared) after it had been dropped
+    ReadOfDead(u64),
 }
 
 #[derive(Default)]
@@ -199,6 +201,13 @@ impl PartialEq for Tr {
     fn eq(&self, o: &Tr) -> bool {
         if !self.valid() || !o.valid() {
             with_ledger(|l| l.anomalies.push(Anomaly::Garbage { id: self.id, op: "eq" }));
+        } else {
+            // "none is read after it was dropped": both operands must be live
+            for x in [self, o] {
+                if !with_ledger(|l| l.live.contains_key(&x.id)) {
+                    with_ledger(|l| l.anomalies.push(Anomaly::ReadOfDead(x.id)));
+                }
+            }
         }
         self.payload == o.payload
     }
